@@ -101,6 +101,50 @@ pub fn run(args: &Args) {
         row.panics.sort(); row.fine.sort();
         rows.push(row);
     }
+    // ---- meanings of the documented codes and ICD scalings of the type-31 accessors (uom feature on, as by default)
+    {
+        let mut meaning: std::collections::BTreeMap<&str, Vec<(u32, String)>> = Default::default();
+        let mut scaled: std::collections::BTreeMap<&str, Vec<(i64, i64)>> = Default::default();
+        let sample16: Vec<u32> = { let mut v: Vec<u32> = vec![0, 1, 2, 3, 4, 250, 500, 999, 1000, 1001, 2125, 4000, 32767, 32768, 65534, 65535]; for _ in 0..40 { v.push(rng.below(65536) as u32); } v };
+        for raw in 0..=255u32 {
+            let mut vol = random_block(&l, &mut rng, "VOL", 0, 8, 0);
+            let vcps = [12u16, 31, 35, 112, 212, 215];
+            let vcp = vcps[raw as usize % 6];
+            vol.rec.insert("volume_coverage_pattern_number".into(), vcp.to_be_bytes().to_vec());
+            let mut refl = random_block(&l, &mut rng, "REF", 2, if raw % 2 == 0 { 8 } else { 16 }, 0);
+            refl.rec.insert("control_flags".into(), vec![(raw % 4) as u8]);
+            let r16 = sample16[raw as usize % sample16.len()];
+            refl.rec.insert("data_moment_range".into(), (r16 as u16).to_be_bytes().to_vec());
+            refl.rec.insert("data_moment_range_sample_interval".into(), ((r16 ^ 0x55) as u16).to_be_bytes().to_vec());
+            let mut hdr = l.get("drd_header").random(&mut rng);
+            hdr.insert("compression_indicator".into(), vec![raw as u8]);
+            hdr.insert("radial_status".into(), vec![(raw * 7 % 256) as u8]);
+            hdr.insert("azimuth_resolution_spacing".into(), vec![raw as u8]);
+            hdr.insert("azimuth_indexing_mode".into(), vec![(raw * 3 % 256) as u8]);
+            hdr.insert("radial_length".into(), (r16 as u16).to_be_bytes().to_vec());
+            let bytes = build_message(&l, &hdr, &[vol, refl], &[0, 1]);
+            let m = match decode_digital_radar_data(&mut Cursor::new(&bytes)) { Ok(m) => m, Err(_) => continue };
+            res.case(fnv(&bytes) ^ 0x5CA1ED, true);
+            let (g, v) = match (m.reflectivity_data_block.as_ref(), m.volume_data_block.as_ref()) { (Some(g), Some(v)) => (g, v), _ => continue };
+            let h = &m.header;
+            let _ = guarded(|| {
+                meaning.entry("drd_control_flags").or_default().push((raw % 4, format!("{:?}", g.header.control_flags())));
+                meaning.entry("drd_compression_indicator").or_default().push((raw, format!("{:?}", h.compression_indicator())));
+                meaning.entry("drd_radial_status").or_default().push((raw * 7 % 256, format!("{:?}", h.radial_status())));
+                meaning.entry("vol_volume_coverage_pattern").or_default().push((vcp as u32, format!("{:?}", v.volume_coverage_pattern())));
+                let km = |x: uom::si::f64::Length| (x.get::<uom::si::length::kilometer>() * 1000.0).round() as i64;
+                let deg = |x: uom::si::f64::Angle, den: f64| (x.get::<uom::si::angle::degree>() * den).round() as i64;
+                scaled.entry("gen_data_moment_range").or_default().push((g.header.data_moment_range as i64, km(g.header.data_moment_range())));
+                scaled.entry("gen_data_moment_range_sample_interval").or_default().push((g.header.data_moment_range_sample_interval as i64, km(g.header.data_moment_range_sample_interval())));
+                scaled.entry("gen_moment_size_x8").or_default().push((g.header.number_of_data_moment_gates as i64 * g.header.data_word_size as i64, (g.header.moment_size().get::<uom::si::information::byte>() * 8.0).round() as i64));
+                scaled.entry("hdr_azimuth_resolution_spacing").or_default().push((h.azimuth_resolution_spacing as i64, deg(h.azimuth_resolution_spacing(), 2.0)));
+                scaled.entry("hdr_azimuth_indexing_mode").or_default().push((h.azimuth_indexing_mode as i64, h.azimuth_indexing_mode().map(|a| deg(a, 100.0)).unwrap_or(-1)));
+                scaled.entry("hdr_radial_length").or_default().push((h.radial_length as i64, h.radial_length().get::<uom::si::information::byte>().round() as i64));
+            });
+        }
+        for (acc, v) in meaning { tr.ev(json!({"acc": acc, "meaning": v.iter().map(|(r, n)| json!([r, n])).collect::<Vec<_>>()})); }
+        for (acc, v) in scaled { tr.ev(json!({"acc": acc, "scaled": v.iter().map(|(r, x)| json!([r, x])).collect::<Vec<_>>()})); }
+    }
     for r in rows {
         tr.ev(json!({"acc": r.acc, "width": r.width, "tried": r.panics.len() + r.fine.len(), "panics": r.panics.len(), "first_panic": r.panics.first().map(|x| *x as i64).unwrap_or(-1), "returns_for": r.fine.iter().take(40).collect::<Vec<_>>(),
                      "returns": r.fine.len(), "debug_panics_at": r.debug_panics_at.map(|x| x as i64).unwrap_or(-1)}));
